@@ -49,6 +49,16 @@ def mixBoundedLinear (maxDiff h dt us xi z : α) : α :=
   let zn := if h ≤ zn then h else zn
   if zn < 0.0 then -zn else zn
 
+/-- `ladis(x0, t0, t1, v, K)` for one coordinate: LaBolle predictor/corrector diffusion followed by
+forward-Euler advection; `xi` is the standard normal draw, `dw = xi * sqrt(dt)`. -/
+def ladis (K v : α → α) (dt xi x0 : α) : α :=
+  let b0 := sqrt (2.0 * K x0)
+  let dw := xi * sqrt dt
+  let x1 := x0 + b0 * dw
+  let b1 := sqrt (2.0 * K x1)
+  let x2 := x0 + b1 * dw
+  x2 + v x2 * dt
+
 /-- mine `diffuse`: surface mirror only -/
 def mixMine (vdiff dt xi z : α) : α :=
   let z1 := z + sqrt (2.0 * vdiff) * (xi * sqrt dt)
